@@ -58,16 +58,18 @@ def concretise(hist, rng):
         texts = []
         for i in idxs:
             spell[i] = _spelling(hist[i]["key"], i)
-        delayed = None
+        delayed = []
         if mode == "delay":
-            delayed = idxs[-1]       # the code appends shifted groups after the rows of that onset
+            # the code appends shifted groups after the rows of that onset; sometimes TWO markers of the time
+            # point are shifted from one and the same carrier row
+            delayed = idxs[-2:] if (len(idxs) >= 2 and rng.random() < 0.6) else idxs[-1:]
         for i in idxs:
-            if i == delayed:
+            if i in delayed:
                 continue
             texts.append(_marker_text(hist[i]["k"], spell[i], i))
-        if delayed is not None:
+        if delayed:
             d = rng.choice([3, 5, 2.5])
-            carrier = _marker_text(hist[delayed]["k"], spell[delayed], delayed, delay=d)
+            carrier = ", ".join(_marker_text(hist[i]["k"], spell[i], i, delay=d) for i in delayed)
             if rng.random() < 0.5:
                 carrier = "Green, " + carrier
             ct = t - d
